@@ -464,6 +464,8 @@ def r04_9(ctx) -> None:
 
 
 def run(ctx) -> None:
+    from .common import forwarding_discipline
+    ctx.guard(forwarding_discipline, "R04.11", ['plaintext', 'recipient', 'enc', 'tag', 'cek', 'aad', 'iv', 'ek', 'sender_key', 'protected', 'header'], 65)  # arguments are handed on under their own name (generic routing rule, rules/common.py)
     ctx.guard(r04_9)
     ctx.guard(r04_8)
     ctx.guard(r04_7)
